@@ -44,7 +44,7 @@ KINDS = ["in_unit", "in_unit", "in_unit", "eq", "lt", "add"]
 
 
 def strategy(tier):
-    SPEC = synth.world_spec(connected=False, chainy=True, nunits=(3, 6), keep=8)
+    SPEC = synth.world_spec(connected=False, chainy=True, nunits=(3, 6), keep=8, min_ext=1)
     MAG = st.sampled_from([{"t": "int", "v": 1}, {"t": "int", "v": 3}, {"t": "float", "v": 2.5}, {"t": "int", "v": -7}])
     KIND = st.sampled_from(KINDS)
 
@@ -84,7 +84,7 @@ def strategy(tier):
         ndecl = sum(len(f["edges"]) for f in spec["fams"]) + sum(1 + (1 if (e["also"] is not None and e["also"] != e["base"]) else 0) for e in spec["ext"])
 
         def query():
-            q = draw(single(spec)) if draw(convgen.INT10) < 6 else synth.draw_dok_query(draw, spec, MAG)
+            q = draw(single(spec)) if draw(convgen.INT10) < 5 else synth.draw_dok_query(draw, spec, MAG)
             q["kind"] = draw(KIND)
             return q
 
@@ -93,15 +93,25 @@ def strategy(tier):
         if ndecl and draw(convgen.INT10) < 3:
             i = draw(synth._int(0, ndecl - 1))
             steps.insert(draw(synth._int(i + 1, len(steps))), ["redecl", i, draw(st.sampled_from([[7, 1], [1, 2], [3, 1]]))])
+        names = synth.unit_names(spec)
+
+        def other_unit(u):
+            d, k = names.get(u, (None, None))
+            cands = sorted(n for n, (d2, k2) in names.items() if (d2, k2) == (d, k) and n != u)
+            return synth._choose(draw, cands) if cands else u
+
         for _ in range(draw(synth._int(0, 8))):
-            mode = draw(convgen.INT10)
-            if mode < 3:
+            mode = draw(convgen.INT100)
+            where = "any"
+            if mode < 30:
                 q = dict(final)
-            elif mode < 6:
-                # a relative of the final query: same units at another power, reversed, or
-                # with the other query kind (shares path-finder / planner state with it)
+                where = "early" if draw(st.booleans()) else "any"
+            elif mode < 70:
+                # a relative of the final query: same units at another power, reversed, with the
+                # other query kind, or sharing only its source / only its target (all of these
+                # share path-finder / planner state with the final query)
                 q = dict(final)
-                how = draw(st.sampled_from(["power", "power", "reverse", "kind"]))
+                how = draw(st.sampled_from(["power", "power", "reverse", "kind", "share-dst", "share-dst", "share-src"]))
                 if how == "power":
                     k = draw(st.sampled_from([2, 3, -1]))
                     alt = lambda e: e * k if abs(e) == 1 else (1 if e > 0 else -1) * (5 - abs(e) if abs(e) in (2, 3) else 1)
@@ -109,14 +119,22 @@ def strategy(tier):
                     q["dst"] = [[p, u, alt(e)] for p, u, e in final["dst"]]
                 elif how == "reverse":
                     q["src"], q["dst"] = final["dst"], final["src"]
-                else:
+                elif how == "kind":
                     q["kind"] = draw(KIND)
+                elif how == "share-dst":
+                    q["src"] = [[p, other_unit(u), e] for p, u, e in final["src"]]
+                else:
+                    q["dst"] = [[p, other_unit(u), e] for p, u, e in final["dst"]]
+                where = "late" if draw(st.booleans()) else "any"
             else:
                 q = query()
-            # relatives of the final query are placed after all declarations half of the
-            # time, so that they succeed and leave planner / path-finder state behind
-            late = mode < 6 and draw(st.booleans())
-            steps.insert(len(steps) if late else draw(synth._int(0, len(steps))), ["query", q])
+            if where == "late":
+                pos = len(steps)
+            elif where == "early":
+                pos = draw(synth._int(0, max(len(steps) // 2, 0)))
+            else:
+                pos = draw(synth._int(0, len(steps)))
+            steps.insert(pos, ["query", q])
         return {"world": spec, "steps": steps, "final": final}
 
     return history()
@@ -147,7 +165,11 @@ def _exec_query(sw, q):
         return ("exc", type(e).__name__)
     if isinstance(r, bool):
         return ("b", r)
-    return ("v", r.magnitude, str(r.unit))
+    # the unit is described structurally: str() follows the order in which the factors of
+    # an interned unit were first written, which legitimately differs between worlds
+    u = r.unit
+    desc = (tuple(sorted((f.name or "?", e) for f, e in u.factors.items())), u.prefix.base, u.prefix.exponent)
+    return ("v", r.magnitude, desc)
 
 
 def _same(r1, r2, tol=1e-12):
